@@ -248,9 +248,23 @@ func checkC14(c *Checker) {
 		return fn, s
 	}
 	// entry atoms of the receiver value c: c.Buffer (pointer), c.channel
+	// the view's two fields, found by type: the pointer to the parent Buffer and the integer channel number
+	parentFld, chanFld := "Buffer", "channel"
+	if o := c.W.Pkg.Types.Scope().Lookup("C"); o != nil {
+		if st, ok := o.Type().Underlying().(*types.Struct); ok {
+			for i := 0; i < st.NumFields(); i++ {
+				ft := st.Field(i).Type()
+				if pt, isP := ft.(*types.Pointer); isP && isBufferType(pt.Elem()) {
+					parentFld = st.Field(i).Name()
+				} else if bt, isB := ft.Underlying().(*types.Basic); isB && bt.Info()&types.IsInteger != 0 {
+					chanFld = st.Field(i).Name()
+				}
+			}
+		}
+	}
 	parent := func(fn *ssa.Function) (buf, *Term) {
 		r := paramName(fn, 0)
-		return buf{r + ".Buffer"}, mkAtom(r+".channel", intT)
+		return buf{r + "." + parentFld}, mkAtom(r+"."+chanFld, intT)
 	}
 	if fn, s := get("C14-P", "Sample"); fn != nil {
 		pb, chn := parent(fn)
